@@ -163,8 +163,10 @@ def rule_root_loops(ctx, rule):
                 continue
             c = strip(f['inner'][2], casts=True)
             n += 1
+            from . import extents
             bound = render(c['inner'][1]).replace(' ', '') if c.get('kind') == 'BinaryOperator' else ''
-            if not (c.get('kind') == 'BinaryOperator' and c.get('opcode') == '<' and bound.strip('()') in ('r.N_root', 'r.N_root_x*r.N_root_y*r.N_root_z', '(r.N_root_x*r.N_root_y)*r.N_root_z')):
+            bound = extents.canon(extents.resolve(bound, extents.named_values(fn)))          # const int N_root = r->N_root;
+            if not (c.get('kind') == 'BinaryOperator' and c.get('opcode') == '<' and bound in ('r.N_root', 'r.N_root_x*r.N_root_y*r.N_root_z')):
                 ctx.report(rule, '%s:root-loop' % fname, 'src/%s:%s %s' % (cfile, line_of(f), fname),
                            'the loop over the root cells runs while %s instead of over all r->N_root of them: particles in the remaining root boxes are skipped (they exert no force / are not searched)' % render(c))
     ctx.covered(rule, 'loops over r->tree_root visit all N_root root cells', n, floor=4)
@@ -404,26 +406,55 @@ def rule_wrapper_forwards(ctx, rule):
 
 # ------------------------------------------------------------------ Python: integrator name and its settings struct
 def rule_integrator_conjuncts(ctx, rule):
-    """In a condition of the Python layer, `sim.integrator == "x" and sim.ri_y.<member> ...` tests the settings of the
-    integrator it has just named: x and y agree."""
+    """In the Python layer a settings struct `ri_y` that is consulted under a guard naming the integrator "x" is the one of
+    that integrator: x = y. Three ways of writing the guard are read: a conjunction
+    `sim.integrator == "x" and sim.ri_y.<member> ...`, an `if <integrator> == "x":` (or elif) whose body touches `ri_y`, and
+    a dictionary literal from integrator names to the names of their structs {"x": "ri_y"}. `<integrator>` is the attribute
+    or a local that holds it (`integrator = sim.integrator`)."""
     db = pyfront.pydb()
     n = 0
+
+    def mismatch(rel, line, key, name, attr, text):
+        ctx.report(rule, '%s:%s:%s' % (rel, key, attr), '%s:%d' % (rel, line),
+                   'the guard names the integrator "%s" and then uses %s: the settings of another integrator decide (its safe_mode defaults to 1, so an unsynchronised "%s" run is treated as safe)' % (name, text, name))
     for rel, tree in sorted(db.files.items()):
+        # locals that hold the integrator name (`integrator = sim.integrator`)
+        held = set()
         for node in ast.walk(tree):
-            if not (isinstance(node, ast.BoolOp) and isinstance(node.op, ast.And)):
-                continue
-            names = []
-            for v in node.values:
-                if isinstance(v, ast.Compare) and len(v.ops) == 1 and isinstance(v.ops[0], ast.Eq) and isinstance(v.left, ast.Attribute) and v.left.attr == 'integrator' \
-                        and isinstance(v.comparators[0], ast.Constant) and isinstance(v.comparators[0].value, str):
-                    names.append(v.comparators[0].value)
-            if len(names) != 1:
-                continue
-            for v in node.values:
-                for a in ast.walk(v):
-                    if isinstance(a, ast.Attribute) and a.attr.startswith('ri_'):
+            if isinstance(node, ast.Assign) and len(node.targets) == 1 and isinstance(node.targets[0], ast.Name) \
+                    and isinstance(node.value, ast.Attribute) and node.value.attr == 'integrator':
+                held.add(node.targets[0].id)
+
+        def names_integrator(e):
+            return (isinstance(e, ast.Attribute) and e.attr == 'integrator') or (isinstance(e, ast.Name) and e.id in held)
+
+        def named(v):
+            if isinstance(v, ast.Compare) and len(v.ops) == 1 and isinstance(v.ops[0], ast.Eq) and names_integrator(v.left) \
+                    and isinstance(v.comparators[0], ast.Constant) and isinstance(v.comparators[0].value, str):
+                return v.comparators[0].value
+            return None
+        for node in ast.walk(tree):
+            if isinstance(node, ast.BoolOp) and isinstance(node.op, ast.And):
+                names = [named(v) for v in node.values if named(v) is not None]
+                if len(names) != 1:
+                    continue
+                for v in node.values:
+                    for a in ast.walk(v):
+                        if isinstance(a, ast.Attribute) and a.attr.startswith('ri_'):
+                            n += 1
+                            if a.attr[3:] != names[0]:
+                                mismatch(rel, a.lineno, 'and:%d' % node.lineno, names[0], a.attr, ast.unparse(a))
+            elif isinstance(node, ast.If) and named(node.test) is not None:
+                for st in node.body:
+                    for a in ast.walk(st):
+                        if isinstance(a, ast.Attribute) and a.attr.startswith('ri_'):
+                            n += 1
+                            if a.attr[3:] != named(node.test):
+                                mismatch(rel, a.lineno, 'if:%s' % named(node.test), named(node.test), a.attr, ast.unparse(a))
+            elif isinstance(node, ast.Dict):
+                for k, v in zip(node.keys, node.values):
+                    if isinstance(k, ast.Constant) and isinstance(k.value, str) and isinstance(v, ast.Constant) and isinstance(v.value, str) and v.value.startswith('ri_'):
                         n += 1
-                        if a.attr[3:] != names[0]:
-                            ctx.report(rule, '%s:%d:%s' % (rel, node.lineno, a.attr), '%s:%d' % (rel, a.lineno),
-                                       'the condition names the integrator "%s" and then tests %s: the settings of another integrator decide (its safe_mode defaults to 1, so an unsynchronised "%s" run is treated as safe)' % (names[0], ast.unparse(a), names[0]))
-    ctx.covered(rule, 'conditions that name an integrator test the settings struct of that integrator', n, floor=6)
+                        if v.value[3:] != k.value:
+                            mismatch(rel, v.lineno, 'dict:%s' % k.value, k.value, v.value, repr(v.value))
+    ctx.covered(rule, 'settings structs consulted under a guard that names an integrator are those of that integrator (conjunctions, if-bodies, name tables)', n, floor=3)
